@@ -30,6 +30,27 @@ CLAIMED = {
              'observation, not armed',
         technique='class-lattice signature analysis + path-sensitive '
                   'abstract interpretation of constructors/casts/guards'),
+    'C01': dict(
+        partial=True,
+        text='The CTL labeller is discovered from CTL.modelcheck and '
+             'interpreted abstractly per formula shape (19 shapes): every '
+             'restricted shape is handled directly and every other shape is '
+             'rewritten once into a directly handled one (termination); the '
+             '16 CTL rewrite rules are valid equivalences (C05 engine); '
+             'each of the 9 direct handlers (Not, Or, atom, true/false, EX, '
+             'EU, EG) is summarised as a closed set/graph-algebra term and '
+             'that extracted term equals the documented semantics on every '
+             'total structure with <=3 states and all child sets; the memo '
+             'is per call and keyed by the handler\'s own formula.',
+        ref='3-C01',
+        note='trusted: graph primitives (subgraph, reversal, reachability, '
+             'SCC, next) behave as documented (C12 n/a, C13); handler '
+             'summaries compared on all structures <=3 states (bounded); '
+             'evaluator of extracted terms in pmcv/galg.py',
+        technique='abstract interpretation (dispatch table, set/graph '
+                  'algebra summaries of handlers) + bounded equivalence of '
+                  'the extracted summary with the documented fixpoint '
+                  'semantics'),
     'C05': dict(
         text='Every rewriter (get_equivalent_restricted_formula of each '
              'alphabet class of CTL*, LTL, CTL; 41 rule instances) is '
